@@ -416,3 +416,15 @@ Definition wrap_str (ind : str) (align : bool) (width : Z) (T : node) (sr : rpat
 Definition wrap_seen (ind : str) (align : bool) (width : Z) (T : node) (sr : rpath) : node :=
   match wrap_real ind align width T sr with Some c => seen c | None => Text [] end.
 Close Scope Z_scope.
+
+(* the class of the open finding C03-preserved-newline-offset: some text below an element bearing
+   xml:space="preserve" contains a newline (then the writer's offset counts from inside preserved content and
+   _line_offset can be 0 without the stream being at the start of a line) *)
+Fixpoint preserved_newline (inside : bool) (n : node) : bool :=
+  match n with
+  | Tag _ _ attrs kids =>
+      let here := (inside || match get_attr xml_ns s_space attrs with Some v => str_eqb v s_preserve | None => false end)%bool in
+      existsb (preserved_newline here) kids
+  | Text s => (inside && existsb (N.eqb LF) s)%bool
+  | _ => false
+  end.
